@@ -123,6 +123,23 @@ func c10Session(t *rapid.T) (stmts []string, probes []string, nontrivial bool) {
 		str := target.str
 		switch op := rapid.IntRange(0, 9).Draw(t, "op"); {
 		case op <= 1:
+			if rapid.Bool().Draw(t, "chain") {
+				// a chain of three or four terms, often with an empty one early on
+				empty := "[]"
+				if str {
+					empty = `""`
+				}
+				terms := []string{}
+				for n := rapid.IntRange(3, 4).Draw(t, "terms"); n > 0; n-- {
+					if rapid.IntRange(0, 2).Draw(t, "empty") == 0 {
+						terms = append(terms, empty)
+					} else {
+						terms = append(terms, operand(str))
+					}
+				}
+				emit(fmt.Sprintf("%s = %s", x, strings.Join(terms, " + ")))
+				break
+			}
 			emit(fmt.Sprintf("%s = %s + %s", x, operand(str), operand(str)))
 		case op == 2:
 			emit(fmt.Sprintf("%s = cat(%s, %s)", x, operand(str), operand(str)))
